@@ -6,6 +6,7 @@ import (
 	"fmt"
 	"os"
 	"runtime"
+	"runtime/pprof"
 	"strings"
 	"sync/atomic"
 	"testing"
@@ -22,7 +23,7 @@ const (
 	interval = time.Millisecond
 )
 
-var workloads = []string{"in-order", "loss", "duplicates", "reordering", "with-feedback", "loss-with-feedback", "retransmissions-lagging-ccfb", "many-streams", "stream-churn", "failing-transport"}
+var workloads = []string{"in-order", "loss", "duplicates", "reordering", "with-feedback", "loss-with-feedback", "retransmissions-lagging-ccfb", "many-streams", "stream-churn", "failing-transport", "app-rtcp", "feedback-clock-crawls"}
 
 const manyStreams = 120 // further local and remote streams of the "many-streams" workload: memory may depend on their number, not on the packets
 
@@ -114,14 +115,14 @@ func runPair(p Pair) result { //nolint:cyclop,gocognit
 	if p.Workload == "failing-transport" {
 		rtcpSink.failEvery = 7
 	}
-	ic.BindRTCPWriter(rtcpSink)
+	rtcpOut := ic.BindRTCPWriter(rtcpSink)
 	rtcpSrc := &kit.ByteSource{}
 	rtcpIn := ic.BindRTCPReader(rtcpSrc)
 	rtpSink := &countingRTP{}
 	if p.Workload == "failing-transport" {
 		rtpSink.failEvery = 53 // co-prime with the batch and burst sizes in use, so that over time every position of a batch is hit
 	}
-	ccfb := p.Workload == "retransmissions-lagging-ccfb" // no transport-cc negotiated: RFC 8888 feedback keyed by (SSRC, sequence number), no RTX
+	ccfb := p.Workload == "retransmissions-lagging-ccfb" || p.Workload == "feedback-clock-crawls" // no transport-cc negotiated: RFC 8888 feedback keyed by (SSRC, sequence number), no RTX
 	tw := twccID
 	if ccfb {
 		tw = 0
@@ -200,9 +201,29 @@ func runPair(p Pair) result { //nolint:cyclop,gocognit
 		from.Push(rawBuf[:n])
 		_, _, _ = rd.Read(buf, nil)
 	}
+	// the receiver's report timestamps follow the wall clock, as a receiver's do; in the workload "feedback-clock-crawls" they advance by
+	// 0.6 ms per 40 packets only (a receiver whose clock all but stands still), which is the input of the listed finding about arrival groups
+	reportTS := func(k int) uint32 {
+		if p.Workload == "feedback-clock-crawls" {
+			return uint32(k) //nolint:gosec
+		}
+		now := time.Now()
+
+		return uint32(uint64(now.Unix()+2208988800)&0xffff)<<16 | uint32(uint64(now.Nanosecond())*65536/1_000_000_000) //nolint:gosec
+	}
+	// arrival offsets: the packets of one feedback were sent within a fraction of a millisecond here, so a truthful receiver reports them
+	// as arrived within the report's own millisecond (offset 0); the crawling-clock workload keeps the 1/1024 s steps that spread them
+	// over 39 ms of receiver time
+	ato := func(back int) uint16 {
+		if p.Workload == "feedback-clock-crawls" {
+			return uint16(back) //nolint:gosec
+		}
+
+		return 0
+	}
 	feedback := func(k int) {
 		n := 40
-		fb := &rtcp.TransportLayerCC{SenderSSRC: 9, MediaSSRC: 0x6001, BaseSequenceNumber: twOut - uint16(n) + 1, PacketStatusCount: uint16(n), ReferenceTime: uint32(k%1000 + 1), FbPktCount: uint8(k), //nolint:gosec
+		fb := &rtcp.TransportLayerCC{SenderSSRC: 9, MediaSSRC: 0x6001, BaseSequenceNumber: twOut - uint16(n) + 1, PacketStatusCount: uint16(n), ReferenceTime: uint32(k/40 + 1), FbPktCount: uint8(k), // (arrival times move forward from one feedback to the next, as a receiver's clock does) //nolint:gosec
 			PacketChunks: []rtcp.PacketStatusChunk{&rtcp.RunLengthChunk{PacketStatusSymbol: rtcp.TypeTCCPacketReceivedSmallDelta, RunLength: uint16(n)}}} //nolint:gosec
 		for i := 0; i < n; i++ {
 			fb.RecvDeltas = append(fb.RecvDeltas, &rtcp.RecvDelta{Type: rtcp.TypeTCCPacketReceivedSmallDelta, Delta: 250})
@@ -215,11 +236,11 @@ func runPair(p Pair) result { //nolint:cyclop,gocognit
 		}
 		blk := rtcp.CCFeedbackReportBlock{MediaSSRC: 0x6001, BeginSequence: seqOut - lag - uint16(n) + 1} //nolint:gosec
 		for i := 0; i < n; i++ {
-			blk.MetricBlocks = append(blk.MetricBlocks, rtcp.CCFeedbackMetricBlock{Received: i%10 != 3, ArrivalTimeOffset: uint16(n - i)}) //nolint:gosec
+			blk.MetricBlocks = append(blk.MetricBlocks, rtcp.CCFeedbackMetricBlock{Received: i%10 != 3, ArrivalTimeOffset: ato(n - i)})
 		}
 		pkts := []rtcp.Packet{
 			&rtcp.ReceiverReport{SSRC: 9, Reports: []rtcp.ReceptionReport{{SSRC: 0x6001, LastSequenceNumber: uint32(seqOut), LastSenderReport: uint32(k), Delay: 5}}}, //nolint:gosec
-			fb, &rtcp.CCFeedbackReport{SenderSSRC: 9, ReportTimestamp: uint32(k), ReportBlocks: []rtcp.CCFeedbackReportBlock{blk}}, //nolint:gosec
+			fb, &rtcp.CCFeedbackReport{SenderSSRC: 9, ReportTimestamp: reportTS(k), ReportBlocks: []rtcp.CCFeedbackReportBlock{blk}},
 			&rtcp.TransportLayerNack{SenderSSRC: 9, MediaSSRC: 0x6001, Nacks: []rtcp.NackPair{{PacketID: seqOut - 3, LostPackets: 1}}},
 		}
 		raw, err := rtcp.Marshal(pkts)
@@ -228,8 +249,17 @@ func runPair(p Pair) result { //nolint:cyclop,gocognit
 		}
 		rtcpSrc.Push(raw)
 		_, _, _ = rtcpIn.Read(buf, nil)
+		// and the application's own RTCP on its way out: reports, an XR with two receiver reference time blocks, feedback about the remote stream
+		_, _ = rtcpOut.Write([]rtcp.Packet{
+			&rtcp.ReceiverReport{SSRC: 9, Reports: []rtcp.ReceptionReport{{SSRC: 0x7001, LastSequenceNumber: uint32(seqIn)}}},
+			&rtcp.ExtendedReport{SenderSSRC: 9, Reports: []rtcp.ReportBlock{
+				&rtcp.ReceiverReferenceTimeReportBlock{NTPTimestamp: uint64(k) << 20}, &rtcp.ReceiverReferenceTimeReportBlock{NTPTimestamp: uint64(k)<<20 + 1}, //nolint:gosec
+			}},
+			&rtcp.PictureLossIndication{SenderSSRC: 9, MediaSSRC: 0x7001},
+			&rtcp.TransportLayerNack{SenderSSRC: 9, MediaSSRC: 0x7001, Nacks: []rtcp.NackPair{{PacketID: seqIn - 2}}},
+		}, nil)
 	}
-	withFeedback := p.Workload == "with-feedback" || p.Workload == "loss-with-feedback" || p.Workload == "failing-transport" || ccfb
+	withFeedback := p.Workload == "with-feedback" || p.Workload == "feedback-clock-crawls" || p.Workload == "loss-with-feedback" || p.Workload == "failing-transport" || ccfb
 	lossy := p.Workload == "loss" || p.Workload == "loss-with-feedback"
 	sentTotal := int64(0)
 	churnSSRC := uint32(0x100000)
@@ -323,7 +353,7 @@ func runPair(p Pair) result { //nolint:cyclop,gocognit
 				recvOne(seqIn)
 				sentTotal++
 			}
-			if withFeedback && i%40 == 39 {
+			if withFeedback && i%40 == 39 || p.Workload == "app-rtcp" && i%2 == 1 {
 				feedback(ph*p.PerPhase + i)
 			}
 			if i%100 == 99 {
@@ -356,7 +386,12 @@ func runPair(p Pair) result { //nolint:cyclop,gocognit
 		if t := int64(res.Phases[k-1] / 200); t > tol { //nolint:gosec
 			tol = t
 		}
-		if grow <= tol || growObj <= 200 {
+		// many small objects (a map entry or list node per packet), or - judged only once more than 2^16 packets lie behind, because maps keyed
+		// by 16-bit numbers legitimately fill up until then (rtpfb: 450 KB per 15000 packets, flat from 75000 on) - one object that keeps growing
+		// (not for the cc members: the estimator keeps acknowledgements of the last half second of wall-clock time, so what it retains
+		// follows the speed of the run - 11..15 MB in steps of megabytes were seen; their one growing list is the listed finding below)
+		bytesAlone := (k-1)*p.PerPhase >= 70000 && grow > 4*tol && !strings.HasPrefix(p.Member, "cc-")
+		if !(grow > tol && growObj > 200) && !bytesAlone {
 			growing = false
 		}
 		steps = append(steps, fmt.Sprintf("+%d bytes / +%d objects", grow, growObj))
@@ -364,6 +399,13 @@ func runPair(p Pair) result { //nolint:cyclop,gocognit
 	if growing {
 		res.Verdict = fmt.Sprintf("retained memory grows with the number of packets: the last two of %d equal phases (%d packets each) added %v (heap after each phase: %v)",
 			p.Phases, p.PerPhase, steps, res.Phases)
+	}
+	if f := os.Getenv("VERIF_C12_HEAPPROFILE"); f != "" { // diagnosis of a replayed pair: what is retained after the last phase
+		runtime.GC()
+		if fh, err := os.Create(f); err == nil {
+			_ = pprof.Lookup("heap").WriteTo(fh, 0)
+			_ = fh.Close()
+		}
 	}
 	ic.UnbindLocalStream(linfo)
 	ic.UnbindRemoteStream(rinfo)
@@ -383,13 +425,25 @@ func runPair(p Pair) result { //nolint:cyclop,gocognit
 	return res
 }
 
+// feedsBack reports whether the workload delivers transport-cc / RFC 8888 feedback about the packets sent.
+func feedsBack(w string) bool {
+	switch w {
+	case "with-feedback", "loss-with-feedback", "retransmissions-lagging-ccfb", "failing-transport", "app-rtcp", "feedback-clock-crawls":
+		return true
+	}
+
+	return false
+}
+
 // knownFor returns the id of a listed known finding that explains growth of this pair, if any.
 func knownFor(p Pair) string {
 	switch {
-	case p.Member == "rtpfb" && p.Workload != "with-feedback" && p.Workload != "loss-with-feedback" && p.Workload != "retransmissions-lagging-ccfb":
+	case p.Member == "rtpfb" && !feedsBack(p.Workload):
 		return "C12-rtpfb-history-without-feedback"
 	case p.Member == "rfc8888" && p.Workload == "stream-churn":
 		return "C12-rfc8888-state-survives-unbind"
+	case strings.HasPrefix(p.Member, "cc-") && p.Workload == "feedback-clock-crawls":
+		return "C12-gcc-arrival-group-unbounded"
 	case strings.HasPrefix(p.Member, "cc-") && p.Workload == "stream-churn":
 		return "C12-cc-pacer-streams-kept-until-close"
 	case p.Member == "stats" && p.Workload == "stream-churn":
@@ -421,8 +475,8 @@ func TestMemoryBounded(t *testing.T) {
 	phases, per := kit.EnvInt("VERIF_C12_PHASES", 4), kit.EnvInt("VERIF_C12_PER_PHASE", 15000)
 	shard, nshards := kit.Shard()
 	rec := kit.NewRecorder("C12", "memory-phases",
-		fmt.Sprintf("every interceptor x workload {in-order, 5%% loss, 5%% duplicates, reordering, with periodic feedback, loss with feedback, retransmissions with lagging RFC 8888 feedback, 121 streams each way, 50 short-lived stream pairs bound, used and unbound every 1000 packets (thorough: 100 every 5000), RTP / RTCP transports that refuse every 53rd / 7th write}: %d equal phases of %d packets each way; heap and object "+
-			"count after two forced GCs at each phase boundary; growth over the last phases must stay below max(32 KiB, 0.5%%) / 200 objects, and the heap must return to the baseline after Unbind/Close; "+
+		fmt.Sprintf("every interceptor x workload {in-order, 5%% loss, 5%% duplicates, reordering, with periodic feedback, loss with feedback, retransmissions with lagging RFC 8888 feedback, 121 streams each way, 50 short-lived stream pairs bound, used and unbound every 1000 packets (thorough: 100 every 5000), RTP / RTCP transports that refuse every 53rd / 7th write, application RTCP in both directions with every second packet, RFC 8888 feedback whose report clock crawls}: %d equal phases of %d packets each way; heap and object "+
+			"count after two forced GCs at each phase boundary; growth over each of the last two phases must stay below max(32 KiB, 0.5%%) with 200 objects, or (once more than 2^16 packets lie behind) 4 x that in bytes alone, and the heap must return to the baseline after Unbind/Close; "+
 			"non-trivial = the interceptor keeps per-packet state; distinct by (interceptor, workload, seed)", phases, per))
 	idx := 0
 	for _, member := range kit.AllNames {
@@ -458,4 +512,29 @@ func TestMemoryBounded(t *testing.T) {
 			t.Errorf("%s / %s: %s", member, wl, res.Verdict)
 		}
 	}
+}
+
+// TestKnownArrivalGroupGrows reproduces the listed finding C12-gcc-arrival-group-unbounded on its exact input: RFC 8888 feedback whose report
+// clock crawls keeps one arrival group open, and the estimator's retained heap grows by more than 100 KB per 100000 acknowledged packets.
+func TestKnownArrivalGroupGrows(t *testing.T) {
+	rec := kit.NewRecorder("C12", "known-arrival-group", "fixed reproduction: cc interceptor with a NoOp pacer, 4 phases of 100000 packets, RFC 8888 feedback every 40 packets whose report timestamp advances by 40/65536 s")
+	res := runPair(Pair{Member: "cc-noop-pacer", Workload: "feedback-clock-crawls", Phases: 4, PerPhase: 100000, Seed: 7})
+	rec.Case(1, true, nil, func() any { return res })
+	rec.Case(2, true, nil, nil)
+	n := len(res.Phases)
+	if n < 4 || res.Skipped != "" {
+		t.Skipf("inconclusive: %q", res.Skipped)
+	}
+	grows := int64(res.Phases[n-1])-int64(res.Phases[n-2]) > 100<<10 && int64(res.Phases[n-2])-int64(res.Phases[n-3]) > 100<<10 //nolint:gosec
+	if !grows {
+		return // the finding no longer shows: nothing to report
+	}
+	if kit.Known("C12-gcc-arrival-group-unbounded") {
+		rec.KnownHit("C12-gcc-arrival-group-unbounded")
+
+		return
+	}
+	b, _ := json.Marshal(res.Pair)
+	kit.WriteReplay("TestMemoryBounded", b)
+	t.Fatalf("cc-noop-pacer / feedback-clock-crawls: retained heap grows by more than 100 KB per 100000 acknowledged packets: %v", res.Phases)
 }
